@@ -202,8 +202,7 @@ Proof.
   unfold A, link_tables, upd_obj. cbn [objs]. apply list_sum_update_le.
   intros ob. unfold att_count. cbn [o_att_s o_att_i]. rewrite !app_length.
   pose proof (length_add1 n (o_att_s ob)). pose proof (length_add1 n (o_att_i ob)).
-  destruct (is_nil_keys (dic_of st o n)); cbn [andb]; [destruct (is_list_name n && is_list_name m)|];
-    revert H H0; generalize (length (add1 n (o_att_s ob))) (length (add1 n (o_att_i ob))) (length (o_att_s ob)) (length (o_att_i ob)); intros. all: Show. all: lia.
+  destruct (is_nil_keys (dic_of st o n)); cbn [andb]; [destruct (is_list_name n && is_list_name m)|]; unfold name in *; lia.
 Qed.
 
 Lemma A_frame s t : same_frame s t -> A s = A t.
@@ -213,4 +212,1083 @@ Proof.
   { intros o. destruct (F o) as (_ & _ & _ & H4 & H5 & _). unfold att_count. fold (get_obj s o) (get_obj t o). rewrite H4, H5. reflexivity. }
   clear F. revert H L. generalize (objs s) (objs t). induction l as [|x l IH]; intros [|y l'] H L; cbn in *; try lia.
   rewrite (H 0%nat). f_equal. apply IH; [|lia]. intros o. exact (H (S o)).
+Qed.
+
+(* ---------- creating one mutual link ---------- *)
+Definition link_ok (st : state) (x y : node) : Prop :=
+  in_range st x /\ in_range st y /\ is_list_name (snd y) = is_list_name (snd x) /\
+  is_any_name (snd y) = is_any_name (snd x) /\ x <> y.
+
+Lemma edge_dic st o n y : edge st (o, n) y <-> In y (dic_of st o n).
+Proof.
+  unfold edge, dic_of, partners. cbn [fst snd]. destruct (assoc n (o_info (get_obj st o))) as [d|].
+  - split; [intros (ps & [= <-] & H); exact H|intros H; exists d; auto].
+  - split; [intros (ps & H & _); discriminate|intros []].
+Qed.
+Lemma has_key_edge st o n y : has_key y (dic_of st o n) = true <-> edge st (o, n) y.
+Proof.
+  rewrite edge_dic. unfold has_key. rewrite existsb_exists. split.
+  - intros (z & Hz & E). unfold key_eqb in E. apply andb_prop in E. destruct E as [E1 E2].
+    apply Nat.eqb_eq in E1, E2. destruct y, z; cbn in *; subst. exact Hz.
+  - intros H. exists y. split; [exact H|]. unfold key_eqb. rewrite !Nat.eqb_refl. reflexivity.
+Qed.
+
+Lemma agree_along st x v : consistent st -> val st x = v -> forall y, reach st x y -> val st y = v.
+Proof. intros C Hx y R. induction R as [|y z R IH He]; [exact Hx|]. rewrite <- (C y z He). exact IH. Qed.
+
+Lemma gwf_link st o n p m :
+  gwf st -> link_ok st (o, n) (p, m) -> gwf (link_tables st o n p m).
+Proof.
+  intros [G1 G2] (Rx & Ry & F1 & F2 & Hne). assert (o < length (objs st))%nat as Ho by apply Rx. split.
+  - intros x ps Hp. destruct (node_eq_dec x (o, n)) as [->|Hx].
+    + cbn [fst snd]. destruct (dic_of st o n) as [|d0 dr] eqn:Hd; [apply lt_att_s_new; assumption|].
+      apply lt_att_s_mono; [exact Ho|]. apply (G1 (o, n) (d0 :: dr)). cbn [fst snd]. unfold dic_of in Hd. unfold partners.
+      destruct (assoc n (o_info (get_obj st o))); [congruence|discriminate].
+    + destruct x as [a b]. cbn [fst snd] in *. rewrite lt_partners_other in Hp by assumption.
+      apply lt_att_s_mono; [exact Ho|]. apply (G1 (a, b) ps). exact Hp.
+  - intros x y He. apply lt_edge in He; [|exact Ho]. destruct He as [He|[-> ->]].
+    + destruct (G2 x y He) as (A1 & A2 & A3 & A4). repeat split; try assumption; apply lt_in_range; assumption.
+    + cbn [fst snd] in *. repeat split; try assumption; apply lt_in_range; assumption.
+Qed.
+
+Lemma reach_mono_link st o n p m x y :
+  (o < length (objs st))%nat -> reach st x y -> reach (link_tables st o n p m) x y.
+Proof.
+  intros Ho R. induction R as [|y z R IH He]; [constructor|]. eapply reach_step; [exact IH|].
+  apply lt_edge; [exact Ho|]. left. exact He.
+Qed.
+
+Lemma reach_link_back st o n p m :
+  (o < length (objs st))%nat -> consistent st -> val st (p, m) <> val st (o, n) ->
+  forall y, reach (link_tables st o n p m) (p, m) y -> reach st (p, m) y.
+Proof.
+  intros Ho C Hne y R. induction R as [|y z R IH He]; [constructor|].
+  apply lt_edge in He; [|exact Ho]. destruct He as [He|[-> _]]; [eapply reach_step; eassumption|].
+  exfalso. apply Hne. symmetry. apply (agree_along st (p, m) (val st (p, m)) C eq_refl). exact IH.
+Qed.
+
+Lemma first_direction fuel st o n p m :
+  ginv st -> link_ok st (o, n) (p, m) -> has_key (p, m) (dic_of st o n) = false -> (A st + 2 < fuel)%nat ->
+  let v := val st (o, n) in
+  let s1 := fst (sync1 fuel st o n p m) in
+  snd (sync1 fuel st o n p m) = true /\ overflow s1 = false /\ same_frame (link_tables st o n p m) s1 /\
+  (forall y, reach st (p, m) y -> val s1 y = v) /\
+  (forall y, val s1 y = val st y \/ reach st (p, m) y).
+Proof.
+  intros [G Sy C NL Hov Ty] Hok Hkey Hfuel v s1.
+  pose proof Hok as (Rx & Ry & F1 & F2 & Hne). assert (o < length (objs st))%nat as Ho by apply Rx.
+  set (st1 := link_tables st o n p m) in *.
+  assert (get_val st1 o n = v) as Hv1 by (apply (lt_val st o n p m (o, n))).
+  assert (kind_ok m v = true) as Hk.
+  { cbn [snd] in F1, F2. rewrite (kind_ok_flags m n v F1 F2). apply (Ty (o, n)). exact Rx. }
+  subst s1. rewrite sync1_new by exact Hkey. fold st1. rewrite Hv1.
+  split; [apply assign_ok; exact Hk|].
+  destruct fuel as [|f]; [lia|].
+  destruct (val_dec (val st (p, m)) v) as [E|E].
+  - (* the partner already holds the value: nothing changes *)
+    assert (val st1 (p, m) = v) as E1 by (unfold st1; rewrite lt_val; exact E).
+    rewrite (assign_same_value f st1 p m v Hk E1).
+    split; [exact Hov|]. split; [apply set_val_frame|]. split.
+    + intros y R. rewrite (val_set_same_value _ _ _ _ _ E1). unfold st1. rewrite lt_val.
+      apply (agree_along st (p, m) v C E). exact R.
+    + intros y. left. rewrite (val_set_same_value _ _ _ _ _ E1). unfold st1. apply lt_val.
+  - assert (wf st1 v) as W1 by (apply gwf_wf; apply gwf_link; assumption).
+    assert (no_locks st1) as NL1 by (intros x; unfold st1; rewrite lt_locked by exact Ho; apply NL).
+    assert (Phi st1 < S f)%nat as P1.
+    { pose proof (Phi_le_A st1). pose proof (A_link st o n p m). fold st1 in H0. lia. }
+    assert (in_range st1 (p, m)) as R1 by (apply lt_in_range; assumption).
+    assert (forall y, reach st1 (p, m) y -> reach st (p, m) y) as Hback
+      by (apply reach_link_back; [exact Ho|exact C|exact E]).
+    assert (consistent_from st1 (p, m)) as C1.
+    { intros y z R He. unfold st1. rewrite !lt_val.
+      apply lt_edge in He; [|exact Ho]. destruct He as [He|[-> _]]; [apply C; exact He|].
+      exfalso. apply E. symmetry. apply (agree_along st (p, m) (val st (p, m)) C eq_refl). apply Hback. exact R. }
+    destruct (assign_converges_from v (S f) st1 p m W1 C1 NL1 Hov P1 Hk R1) as (O' & F' & Hall & _).
+    split; [exact O'|]. split; [exact F'|]. split.
+    + intros y R. apply Hall. apply reach_mono_link; assumption.
+    + intros y. destruct (val_dec (val (fst (assign (S f) st1 p m v)) y) (val st1 y)) as [Ey|Ey].
+      * left. rewrite Ey. unfold st1. apply lt_val.
+      * right. apply Hback. eapply assign_touches_only_reachable; [exact Hov|apply (NL1 (p, m))|exact P1|exact Ey].
+Qed.
+
+Lemma gwf_frame s t : same_frame s t -> gwf s -> gwf t.
+Proof.
+  intros F [G1 G2]. pose proof (same_frame_sym _ _ F) as F'. split.
+  - intros x ps Hp. pose proof F as [_ Fo]. destruct (Fo (fst x)) as (_ & _ & _ & H4 & _). rewrite <- H4.
+    apply (G1 x ps). rewrite (partners_frame _ _ _ _ F). exact Hp.
+  - intros x y He. destruct (G2 x y (edge_frame _ _ _ _ F' He)) as (A1 & A2 & A3 & A4).
+    repeat split; try assumption; eapply in_range_frame; eassumption.
+Qed.
+
+Lemma in_range_frame_iff s t x : same_frame s t -> (in_range s x <-> in_range t x).
+Proof. intros F. split; apply in_range_frame; [exact F|apply same_frame_sym; exact F]. Qed.
+
+Lemma edge_frame_iff s t x y : same_frame s t -> (edge s x y <-> edge t x y).
+Proof. intros F. split; apply edge_frame; [exact F|apply same_frame_sym; exact F]. Qed.
+
+Lemma locked_frame s t x : same_frame s t -> locked s x = locked t x.
+Proof. intros F. unfold locked. apply lockedb_frame. exact F. Qed.
+
+Lemma ginv_clear_notes st : ginv st -> ginv (clear_notes st).
+Proof.
+  intros [G Sy C NL Hov Ty]. pose proof (clear_notes_frame st) as F. split.
+  - eapply gwf_frame; eassumption.
+  - eapply symmetric_frame; eassumption.
+  - intros x y He. change (val st x = val st y). apply C. eapply edge_frame; [apply same_frame_sym; exact F|exact He].
+  - eapply no_locks_frame; eassumption.
+  - exact Hov.
+  - intros x Rx. change (kind_ok (snd x) (val st x) = true). apply Ty. eapply in_range_frame; [apply same_frame_sym; exact F|exact Rx].
+Qed.
+
+Theorem sync_step_inv fuel st o n p m :
+  ginv st -> link_ok st (o, n) (p, m) -> (A st + 4 < fuel)%nat ->
+  let st' := fst (step fuel st (Sync o n p m true)) in
+  ginv st' /\ (A st' <= A st + 4)%nat /\ (forall x, in_range st x <-> in_range st' x).
+Proof.
+  intros Hinv Hok Hfuel st'.
+  set (st0 := clear_notes st).
+  assert (ginv st0) as Hinv0 by (apply ginv_clear_notes; exact Hinv).
+  assert (A st0 = A st) as HA0 by reflexivity.
+  assert (link_ok st0 (o, n) (p, m)) as Hok0 by exact Hok.
+  clear Hinv. destruct Hinv0 as [G Sy C NL Hov Ty].
+  pose proof Hok0 as (Rx & Ry & F1 & F2 & Hne).
+  assert (o < length (objs st0))%nat as Ho by apply Rx.
+  assert (p < length (objs st0))%nat as Hp by apply Ry.
+  subst st'. unfold step. fold st0.
+  destruct (has_key (p, m) (dic_of st0 o n)) eqn:Hkey.
+  { (* already linked: both directions are no-ops *)
+    rewrite (sync1_linked fuel st0 o n p m Hkey). cbn [negb].
+    assert (has_key (o, n) (dic_of st0 p m) = true) as Hkey'.
+    { apply has_key_edge. apply Sy. apply has_key_edge. exact Hkey. }
+    rewrite (sync1_linked fuel st0 p m o n Hkey'). cbn [fst].
+    split; [split; assumption|]. split; [lia|intros x; reflexivity]. }
+  assert (has_key (o, n) (dic_of st0 p m) = false) as Hkey'.
+  { destruct (has_key (o, n) (dic_of st0 p m)) eqn:E; [|reflexivity].
+    apply has_key_edge in E. apply Sy in E. apply has_key_edge in E. congruence. }
+  destruct (first_direction fuel st0 o n p m (mkGinv _ G Sy C NL Hov Ty) Hok0 Hkey ltac:(lia))
+    as (Hok1 & O1 & Fr1 & Hb & Hc).
+  set (v := val st0 (o, n)) in *.
+  destruct (sync1 fuel st0 o n p m) as [s1 ok] eqn:Hs1. cbn [fst snd] in *. subst ok. cbn [negb].
+  set (st1 := link_tables st0 o n p m) in *.
+  (* values after the first direction *)
+  assert (val s1 (p, m) = v) as Vp by (apply Hb; constructor).
+  assert (val s1 (o, n) = v) as Vo by (destruct (Hc (o, n)) as [E|R]; [exact E|apply Hb; exact R]).
+  (* tables of s1 = tables of st1 *)
+  assert (forall a b, edge s1 a b <-> (edge st0 a b \/ (a = (o, n) /\ b = (p, m)))) as E1.
+  { intros a b. rewrite <- (edge_frame_iff _ _ a b Fr1). apply lt_edge. exact Ho. }
+  assert (p < length (objs s1))%nat as Hp1.
+  { destruct Fr1 as [L _]. rewrite <- L. unfold st1. rewrite lt_length. exact Hp. }
+  assert (has_key (o, n) (dic_of s1 p m) = false) as Hkey1.
+  { destruct (has_key (o, n) (dic_of s1 p m)) eqn:E; [|reflexivity].
+    apply has_key_edge in E. apply E1 in E. destruct E as [E|[E _]].
+    - apply has_key_edge in E. congruence.
+    - exfalso. apply Hne. symmetry. exact E. }
+  rewrite (sync1_new fuel s1 p m o n Hkey1).
+  set (s1' := link_tables s1 p m o n).
+  assert (get_val s1' p m = v) as Hv2 by (change (val s1' (p, m) = v); unfold s1'; rewrite lt_val; exact Vp).
+  rewrite Hv2.
+  assert (kind_ok n v = true) as Hkn by (apply (Ty (o, n)); exact Rx).
+  assert (val s1' (o, n) = v) as Vo' by (unfold s1'; rewrite lt_val; exact Vo).
+  destruct fuel as [|f]; [lia|].
+  rewrite (surjective_pairing (assign (S f) s1' o n v)). rewrite (assign_same_value f s1' o n v Hkn Vo'). cbn [fst].
+  set (s2 := set_val s1' o n v).
+  assert (same_frame s1' s2) as Fr2 by apply set_val_frame.
+  assert (forall y, val s2 y = val s1 y) as V2.
+  { intros y. unfold s2. rewrite (val_set_same_value _ _ _ _ _ Vo'). unfold s1'. apply lt_val. }
+  assert (forall a b, edge s2 a b <->
+            (edge st0 a b \/ (a = (o, n) /\ b = (p, m)) \/ (a = (p, m) /\ b = (o, n)))) as E2.
+  { intros a b. rewrite <- (edge_frame_iff _ _ a b Fr2). unfold s1'. rewrite (lt_edge s1 p m o n Hp1). rewrite E1. tauto. }
+  assert (forall x, in_range st0 x <-> in_range s2 x) as Hrng.
+  { intros x. rewrite (lt_in_range st0 o n p m Ho x). fold st1. rewrite (in_range_frame_iff _ _ x Fr1).
+    rewrite (lt_in_range s1 p m o n Hp1 x). fold s1'. apply in_range_frame_iff. exact Fr2. }
+  assert (link_ok s1 (p, m) (o, n)) as Hok1'.
+  { assert (forall x, in_range st0 x <-> in_range s1 x) as Hr1.
+    { intros x. rewrite (lt_in_range st0 o n p m Ho x). fold st1. apply in_range_frame_iff. exact Fr1. }
+    split; [apply Hr1; exact Ry|]. split; [apply Hr1; exact Rx|]. cbn [snd] in *.
+    split; [symmetry; exact F1|]. split; [symmetry; exact F2|]. intros E. apply Hne. symmetry. exact E. }
+  split; [|split; [|exact Hrng]].
+  - split.
+    + (* gwf *)
+      eapply gwf_frame; [exact Fr2|]. apply gwf_link; [|exact Hok1'].
+      eapply gwf_frame; [exact Fr1|]. apply gwf_link; assumption.
+    + (* symmetric *)
+      intros a b He. apply E2 in He. apply E2. destruct He as [He|[[-> ->]|[-> ->]]]; [left; apply Sy; exact He|right; right; auto|right; left; auto].
+    + (* consistent *)
+      intros a b He. rewrite !V2. apply E2 in He. destruct He as [He|[[-> ->]|[-> ->]]]; [|congruence|congruence].
+      destruct (Hc a) as [Ea|Ra]; destruct (Hc b) as [Eb|Rb].
+      * rewrite Ea, Eb. apply C. exact He.
+      * assert (reach st0 (p, m) a) as Ra by (eapply reach_step; [exact Rb|apply Sy; exact He]).
+        rewrite (Hb a Ra), (Hb b Rb). reflexivity.
+      * assert (reach st0 (p, m) b) as Rb by (eapply reach_step; eassumption).
+        rewrite (Hb a Ra), (Hb b Rb). reflexivity.
+      * rewrite (Hb a Ra), (Hb b Rb). reflexivity.
+    + (* no locks *)
+      intros x. rewrite <- (locked_frame _ _ x Fr2). unfold s1'. rewrite (lt_locked s1 p m o n Hp1).
+      rewrite <- (locked_frame _ _ x Fr1). unfold st1. rewrite (lt_locked st0 o n p m Ho). apply NL.
+    + exact O1.
+    + (* values stay well-kinded *)
+      intros x Rx2. rewrite V2. destruct (Hc x) as [Ex|Rr].
+      * rewrite Ex. apply Ty. apply Hrng. exact Rx2.
+      * rewrite (Hb x Rr). destruct (reach_flags st0 _ _ G Rr) as [K1 K2]. cbn [snd] in K1, K2, F1, F2.
+        rewrite (kind_ok_flags (snd x) n v); [exact Hkn|congruence|congruence].
+  - (* budget *)
+    rewrite <- (A_frame _ _ Fr2). pose proof (A_link s1 p m o n). fold s1' in H.
+    rewrite <- (A_frame _ _ Fr1) in H. pose proof (A_link st0 o n p m). fold st1 in H0. lia.
+Qed.
+
+(* ---------- an assignment keeps the invariant ---------- *)
+Theorem assign_step_inv fuel st o n v :
+  ginv st -> in_range st (o, n) -> kind_ok n v = true -> (A st < fuel)%nat ->
+  let st' := fst (step fuel st (Assign o n v)) in
+  ginv st' /\ A st' = A st /\ (forall x, in_range st x <-> in_range st' x).
+Proof.
+  intros Hinv Rx Hk Hfuel st'.
+  set (st0 := clear_notes st).
+  pose proof (ginv_clear_notes st Hinv) as [G Sy C NL Hov Ty]. fold st0 in G, Sy, C, NL, Hov, Ty.
+  assert (same_frame st st0) as F0 by apply clear_notes_frame.
+  assert (in_range st0 (o, n)) as Rx0 by exact Rx.
+  assert (Phi st0 < fuel)%nat as P0 by (pose proof (Phi_le_A st0); assert (A st0 = A st) by reflexivity; lia).
+  assert (fst (step fuel st (Assign o n v)) = fst (assign fuel st0 o n v)) as Hstep.
+  { unfold step. fold st0. destruct (assign fuel st0 o n v). reflexivity. }
+  subst st'. rewrite Hstep.
+  pose proof (gwf_wf st0 v G) as W.
+  destruct (assign_converges v fuel st0 o n W C NL Hov P0 Hk Rx0) as (O' & F' & Hall & _).
+  pose proof (assign_preserves_consistency v fuel st0 o n W Sy C NL Hov P0 Hk Rx0) as C'.
+  set (s1 := fst (assign fuel st0 o n v)) in *.
+  assert (forall y, val s1 y = val st0 y \/ reach st0 (o, n) y) as Hc.
+  { intros y. destruct (val_dec (val s1 y) (val st0 y)) as [E|E]; [left; exact E|right].
+    eapply assign_touches_only_reachable; [exact Hov|apply (NL (o, n))|exact P0|exact E]. }
+  split; [|split].
+  - split.
+    + eapply gwf_frame; eassumption.
+    + eapply symmetric_frame; eassumption.
+    + exact C'.
+    + eapply no_locks_frame; eassumption.
+    + exact O'.
+    + intros x Rx1. destruct (Hc x) as [E|R].
+      * rewrite E. apply Ty. eapply in_range_frame; [apply same_frame_sym; exact F'|exact Rx1].
+      * rewrite (Hall x R). destruct (reach_flags st0 _ _ G R) as [K1 K2]. cbn [snd] in K1, K2.
+        rewrite (kind_ok_flags (snd x) n v K1 K2). exact Hk.
+  - rewrite <- (A_frame _ _ F'). reflexivity.
+  - intros x. rewrite (in_range_frame_iff _ _ x F0). apply in_range_frame_iff. exact F'.
+Qed.
+
+(* ---------- histories of sync_trait(mutual) and assignments, from fresh objects ---------- *)
+Fixpoint gops_ok (st : state) (ops : list op) : Prop :=
+  match ops with
+  | [] => True
+  | Assign o n v :: r => in_range st (o, n) /\ kind_ok n v = true /\ gops_ok st r
+  | Sync o n p m true :: r => link_ok st (o, n) (p, m) /\ gops_ok st r
+  | _ :: _ => False
+  end.
+
+Lemma link_ok_range s t x y : (forall z, in_range s z <-> in_range t z) -> link_ok s x y -> link_ok t x y.
+Proof. intros H (A1 & A2 & A3 & A4 & A5). repeat split; try assumption; apply H; assumption. Qed.
+
+Lemma gops_ok_range s t ops : (forall z, in_range s z <-> in_range t z) -> gops_ok s ops -> gops_ok t ops.
+Proof.
+  intros H. induction ops as [|[o n v| |o n p m [|]| |] r IH]; cbn; auto.
+  - intros (A1 & A2 & A3). split; [apply H; exact A1|]. split; [exact A2|apply IH; exact A3].
+  - intros (A1 & A2). split; [eapply link_ok_range; eassumption|apply IH; exact A2].
+Qed.
+
+Theorem link_assign_histories fuel : forall ops st,
+  ginv st -> (A st + 4 * length ops < fuel)%nat -> gops_ok st ops ->
+  ginv (final fuel st ops).
+Proof.
+  induction ops as [|[o n v| |o n p m [|]| |] r IH]; intros st Hinv Hfuel Hops; cbn [final]; try contradiction.
+  - exact Hinv.
+  - destruct Hops as (Rx & Hk & Hr). cbn [length] in Hfuel.
+    destruct (assign_step_inv fuel st o n v Hinv Rx Hk ltac:(lia)) as (I1 & A1 & R1).
+    apply IH; [exact I1|rewrite A1; lia|eapply gops_ok_range; eassumption].
+  - destruct Hops as (Hok & Hr). cbn [length] in Hfuel.
+    destruct (sync_step_inv fuel st o n p m Hinv Hok ltac:(lia)) as (I1 & A1 & R1).
+    apply IH; [exact I1|lia|eapply gops_ok_range; eassumption].
+Qed.
+
+(* fresh objects *)
+Definition typed_pool (vs : list (list Model.val)) : Prop :=
+  forall o n, (o < length vs)%nat -> (n < length (nth o vs []))%nat -> kind_ok n (nth n (nth o vs []) (VS 0)) = true.
+
+Lemma get_obj_fresh vs o : (o < length vs)%nat -> get_obj (init_state vs) o = fresh (nth o vs []).
+Proof.
+  intros Ho. unfold get_obj, init_state. cbn [objs].
+  rewrite (nth_indep _ dead_obj (fresh []) ltac:(rewrite map_length; exact Ho)).
+  apply (map_nth fresh vs [] o).
+Qed.
+
+Lemma partners_fresh vs o n : partners (init_state vs) o n = None.
+Proof.
+  unfold partners. destruct (Nat.lt_ge_cases o (length vs)) as [Ho|Ho].
+  - rewrite get_obj_fresh by exact Ho. reflexivity.
+  - rewrite get_obj_oob; [reflexivity|]. unfold init_state. cbn [objs]. rewrite map_length. exact Ho.
+Qed.
+
+Lemma ginv_fresh vs : typed_pool vs -> ginv (init_state vs) /\ A (init_state vs) = 0%nat.
+Proof.
+  intros Ht.
+  assert (forall x y, ~ edge (init_state vs) x y) as Hno.
+  { intros x y (ps & Hp & _). rewrite partners_fresh in Hp. discriminate. }
+  split.
+  - split.
+    + split; [intros x ps Hp; rewrite partners_fresh in Hp; discriminate|intros x y He; exfalso; eapply Hno; exact He].
+    + intros x y He. exfalso. eapply Hno. exact He.
+    + intros x y He. exfalso. eapply Hno. exact He.
+    + intros [o n]. unfold locked, lockedb. cbn [fst snd].
+      destruct (Nat.lt_ge_cases o (length vs)) as [Ho|Ho].
+      * rewrite get_obj_fresh by exact Ho. reflexivity.
+      * rewrite get_obj_oob; [reflexivity|]. unfold init_state. cbn [objs]. rewrite map_length. exact Ho.
+    + reflexivity.
+    + intros [o n] [R1 R2]. cbn [fst snd] in *. unfold init_state in R1. cbn [objs] in R1. rewrite map_length in R1.
+      unfold val, get_val. cbn [fst snd]. rewrite get_obj_fresh in * by exact R1. cbn [o_vals fresh] in *.
+      apply Ht; assumption.
+  - unfold A, init_state. cbn [objs]. clear. induction vs as [|x l IH]; [reflexivity|]. simpl. exact IH.
+Qed.
+
+Theorem fresh_link_assign_histories fuel vs ops :
+  typed_pool vs -> (4 * length ops < fuel)%nat -> gops_ok (init_state vs) ops ->
+  let st' := final fuel (init_state vs) ops in
+  consistent st' /\ symmetric st' /\ no_locks st' /\ overflow st' = false.
+Proof.
+  intros Ht Hfuel Hops st'. destruct (ginv_fresh vs Ht) as [I0 A0].
+  destruct (link_assign_histories fuel ops (init_state vs) I0 ltac:(lia) Hops) as [_ Sy C NL Hov _].
+  repeat split; assumption.
+Qed.
+
+(* ---------- decidable hypotheses ---------- *)
+Definition typed_poolb (vs : list (list Model.val)) : bool :=
+  forallb (fun o => forallb (fun n => kind_ok n (nth n (nth o vs []) (VS 0))) (seq 0 (length (nth o vs []))))
+          (seq 0 (length vs)).
+Lemma typed_poolb_sound vs : typed_poolb vs = true -> typed_pool vs.
+Proof.
+  intros H o n Ho Hn. unfold typed_poolb in H. rewrite forallb_forall in H.
+  specialize (H o ltac:(apply in_seq; lia)). rewrite forallb_forall in H. apply H. apply in_seq. lia.
+Qed.
+
+Definition in_rangeb (st : state) (x : node) : bool :=
+  Nat.ltb (fst x) (length (objs st)) && Nat.ltb (snd x) (length (o_vals (get_obj st (fst x)))).
+Lemma in_rangeb_sound st x : in_rangeb st x = true -> in_range st x.
+Proof. unfold in_rangeb. intros H. apply andb_prop in H. destruct H as [H1 H2]. apply Nat.ltb_lt in H1, H2. split; assumption. Qed.
+
+Definition link_okb (st : state) (x y : node) : bool :=
+  in_rangeb st x && in_rangeb st y && Bool.eqb (is_list_name (snd y)) (is_list_name (snd x))
+  && Bool.eqb (is_any_name (snd y)) (is_any_name (snd x)) && negb (key_eqb x y).
+Lemma link_okb_sound st x y : link_okb st x y = true -> link_ok st x y.
+Proof.
+  unfold link_okb. intros H.
+  apply andb_prop in H. destruct H as [H H5]. apply andb_prop in H. destruct H as [H H4].
+  apply andb_prop in H. destruct H as [H H3]. apply andb_prop in H. destruct H as [H1 H2].
+  split; [apply in_rangeb_sound; exact H1|]. split; [apply in_rangeb_sound; exact H2|].
+  split; [apply Bool.eqb_prop; exact H3|]. split; [apply Bool.eqb_prop; exact H4|].
+  intros ->. unfold key_eqb in H5. rewrite !Nat.eqb_refl in H5. discriminate.
+Qed.
+
+Fixpoint gops_okb (st : state) (ops : list op) : bool :=
+  match ops with
+  | [] => true
+  | Assign o n v :: r => in_rangeb st (o, n) && kind_ok n v && gops_okb st r
+  | Sync o n p m true :: r => link_okb st (o, n) (p, m) && gops_okb st r
+  | _ :: _ => false
+  end.
+Lemma gops_okb_sound st ops : gops_okb st ops = true -> gops_ok st ops.
+Proof.
+  induction ops as [|[o n v| |o n p m [|]| |] r IH]; cbn; try discriminate; auto.
+  - intros H. apply andb_prop in H. destruct H as [H H3]. apply andb_prop in H. destruct H as [H1 H2].
+    split; [apply in_rangeb_sound; exact H1|]. split; [exact H2|apply IH; exact H3].
+  - intros H. apply andb_prop in H. destruct H as [H1 H2]. split; [apply link_okb_sound; exact H1|apply IH; exact H2].
+Qed.
+
+(* ====================================================================================== *)
+(* Link REMOVAL.  Needs one more invariant: the keys of every __sync_trait__ table are distinct
+   (assoc_del removes the first entry of a name only). *)
+Definition keys_nodup (st : state) : Prop := forall o, NoDup (map fst (o_info (get_obj st o))).
+
+Lemma info_upd_keep st o f p :
+  (forall ob, o_info (f ob) = o_info ob) -> o_info (get_obj (upd_obj st o f) p) = o_info (get_obj st p).
+Proof.
+  intros Hf. destruct (Nat.eq_dec o p) as [<-|Hne].
+  - destruct (Nat.lt_ge_cases o (length (objs st))) as [Hlt|Hge].
+    + rewrite get_obj_upd_same by exact Hlt. apply Hf.
+    + unfold upd_obj, get_obj. cbn [objs]. rewrite update_oob by exact Hge. reflexivity.
+  - rewrite get_obj_upd_other by exact Hne. reflexivity.
+Qed.
+
+(* propagation never touches a table *)
+Lemma assign_info v : forall f st o n p,
+  o_info (get_obj (fst (assign f st o n v)) p) = o_info (get_obj st p).
+Proof.
+  induction f as [|f IH]; intros st o n p; [reflexivity|]. cbn [assign].
+  destruct (negb (kind_ok n v)); [reflexivity|].
+  assert (forall s a b w, o_info (get_obj (set_val s a b w) p) = o_info (get_obj s p)) as Hset
+    by (intros; unfold set_val; apply info_upd_keep; reflexivity).
+  destruct (val_eqb (get_val st o n) v); cbn [fst]; [apply Hset|].
+  set (st2 := add_note (set_val st o n v) o n).
+  assert (o_info (get_obj st2 p) = o_info (get_obj st p)) as H2 by (unfold st2; apply Hset).
+  destruct (has n (o_att_s (get_obj st2 o))); cbn [fst]; [|exact H2].
+  destruct (partners st2 o n) as [ps|]; cbn [fst]; [|exact H2].
+  unfold unlock. rewrite info_upd_keep by reflexivity.
+  assert (forall l s, o_info (get_obj s p) = o_info (get_obj st p) ->
+            o_info (get_obj (fold_left (fun s (q : oid * name) => let '(p0, pn) := q in
+               if lockedb s p0 pn then s else fst (assign f s p0 pn v)) l s) p) = o_info (get_obj st p)) as Hf.
+  { induction l as [|[p0 pn] l IHl]; intros s Hs; cbn [fold_left]; [exact Hs|]. apply IHl.
+    destruct (lockedb s p0 pn); [exact Hs|]. rewrite IH. exact Hs. }
+  apply Hf. unfold lock. rewrite info_upd_keep by reflexivity. exact H2.
+Qed.
+
+Lemma assoc_set_keys {A} k (a : A) l : NoDup (map fst l) -> NoDup (map fst (assoc_set k a l)).
+Proof.
+  induction l as [|[k' a'] l IH]; cbn; intros Hnd; [constructor; [intros []|constructor]|].
+  inversion Hnd as [|? ? Hnotin Hnd']; subst.
+  destruct (Nat.eqb k k') eqn:E; cbn.
+  - apply Nat.eqb_eq in E. subst. constructor; assumption.
+  - constructor; [|apply IH; exact Hnd'].
+    intros Hin. apply Hnotin. clear - Hin E. induction l as [|[k2 a2] l IHl]; cbn in *.
+    + destruct Hin as [Hin|[]]. subst. rewrite Nat.eqb_refl in E. discriminate.
+    + destruct (Nat.eqb k k2) eqn:E2; cbn in Hin.
+      * apply Nat.eqb_eq in E2. subst. destruct Hin as [Hin|Hin]; [subst; rewrite Nat.eqb_refl in E; discriminate|right; exact Hin].
+      * destruct Hin as [Hin|Hin]; [left; exact Hin|right; apply IHl; exact Hin].
+Qed.
+
+Lemma keys_link_tables st o n p m : keys_nodup st -> keys_nodup (link_tables st o n p m).
+Proof.
+  intros K q. unfold link_tables.
+  destruct (Nat.eq_dec o q) as [<-|Hne].
+  - destruct (Nat.lt_ge_cases o (length (objs st))) as [Hlt|Hge].
+    + rewrite get_obj_upd_same by exact Hlt. cbn [o_info]. apply assoc_set_keys. apply K.
+    + unfold upd_obj, get_obj. cbn [objs]. rewrite update_oob by exact Hge. apply K.
+  - rewrite get_obj_upd_other by exact Hne. apply K.
+Qed.
+
+Lemma sync1_keys fuel st o n p m : keys_nodup st -> keys_nodup (fst (sync1 fuel st o n p m)).
+Proof.
+  intros K. destruct (has_key (p, m) (dic_of st o n)) eqn:E.
+  - rewrite sync1_linked by exact E. exact K.
+  - rewrite sync1_new by exact E. intros q. rewrite assign_info. apply keys_link_tables. exact K.
+Qed.
+
+Lemma assoc_del_same {A} k (l : list (nat * A)) : NoDup (map fst l) -> assoc k (assoc_del k l) = None.
+Proof.
+  induction l as [|[k' a'] l IH]; cbn; intros Hnd; [reflexivity|].
+  inversion Hnd as [|? ? Hnotin Hnd']; subst.
+  destruct (Nat.eqb k k') eqn:E.
+  - apply Nat.eqb_eq in E. subst k'. clear - Hnotin. induction l as [|[k2 a2] l IHl]; cbn in *; [reflexivity|].
+    destruct (Nat.eqb k k2) eqn:E2; [apply Nat.eqb_eq in E2; subst; exfalso; apply Hnotin; left; reflexivity|].
+    apply IHl. intros H. apply Hnotin. right. exact H.
+  - cbn. rewrite E. apply IH. exact Hnd'.
+Qed.
+Lemma assoc_del_other {A} k k2 (l : list (nat * A)) : k2 <> k -> assoc k2 (assoc_del k l) = assoc k2 l.
+Proof.
+  intros Hne. induction l as [|[k' a'] l IH]; cbn; [reflexivity|].
+  destruct (Nat.eqb k k') eqn:E; cbn.
+  - apply Nat.eqb_eq in E. subst k'. destruct (Nat.eqb k2 k) eqn:E2; [apply Nat.eqb_eq in E2; contradiction|reflexivity].
+  - destruct (Nat.eqb k2 k'); [reflexivity|exact IH].
+Qed.
+Lemma assoc_del_keys {A} k (l : list (nat * A)) : NoDup (map fst l) -> NoDup (map fst (assoc_del k l)).
+Proof.
+  induction l as [|[k' a'] l IH]; cbn; intros Hnd; [constructor|].
+  inversion Hnd as [|? ? Hnotin Hnd']; subst. destruct (Nat.eqb k k'); [exact Hnd'|]. cbn.
+  constructor; [|apply IH; exact Hnd'].
+  intros Hin. apply Hnotin. clear - Hin. induction l as [|[k2 a2] l IHl]; cbn in *; [contradiction|].
+  destruct (Nat.eqb k k2); cbn in Hin; [right; exact Hin|destruct Hin as [H|H]; [left; exact H|right; apply IHl; exact H]].
+Qed.
+Lemma has_del1_other n n' l : n' <> n -> has n' (del1 n l) = has n' l.
+Proof.
+  intros Hne. unfold has, del1. induction l as [|x l IH]; cbn; [reflexivity|].
+  destruct (Nat.eqb n x) eqn:E; cbn.
+  - apply Nat.eqb_eq in E. subst x. destruct (Nat.eqb n' n) eqn:E2; [apply Nat.eqb_eq in E2; contradiction|exact IH].
+  - rewrite IH. reflexivity.
+Qed.
+Lemma length_del1 n l : (length (del1 n l) <= length l)%nat.
+Proof. unfold del1. induction l as [|x l IH]; cbn; [lia|]. destruct (negb (Nat.eqb n x)); cbn; lia. Qed.
+
+Lemma key_eqb_true a b : key_eqb a b = true <-> a = b.
+Proof.
+  unfold key_eqb. split.
+  - intros H. apply andb_prop in H. destruct H as [H1 H2]. apply Nat.eqb_eq in H1, H2. destruct a, b; cbn in *; congruence.
+  - intros ->. rewrite !Nat.eqb_refl. reflexivity.
+Qed.
+
+Section Unlink.
+  Variables (st : state) (o : oid) (n : name) (p : oid) (m : name).
+  Hypothesis Ho : (o < length (objs st))%nat.
+  Hypothesis K : keys_nodup st.
+  Let st' := unsync1 st o n p m.
+
+  (* the three shapes of the result *)
+  Lemma unsync1_cases :
+    st' = st /\ ~ edge st (o, n) (p, m)
+    \/ (exists dic, partners st o n = Some dic /\ In (p, m) dic /\
+          filter (fun k => negb (key_eqb (p, m) k)) dic = [] /\
+          st' = upd_obj st o (fun ob => mkO (o_alive ob) (o_vals ob) (assoc_del n (o_info ob)) (o_locked ob)
+                  (del1 n (o_att_s ob)) (if is_list_name n && is_list_name m then del1 n (o_att_i ob) else o_att_i ob)))
+    \/ (exists dic d0 dr, partners st o n = Some dic /\ In (p, m) dic /\
+          filter (fun k => negb (key_eqb (p, m) k)) dic = d0 :: dr /\
+          st' = upd_obj st o (fun ob => mkO (o_alive ob) (o_vals ob) (assoc_set n (d0 :: dr) (o_info ob)) (o_locked ob)
+                  (o_att_s ob) (o_att_i ob))).
+  Proof.
+    unfold st', unsync1. fold (partners st o n).
+    destruct (partners st o n) as [dic|] eqn:Hp.
+    - destruct (has_key (p, m) dic) eqn:Hk.
+      + assert (In (p, m) dic) as Hin.
+        { unfold has_key in Hk. apply existsb_exists in Hk. destruct Hk as (z & Hz & E). apply key_eqb_true in E. subst. exact Hz. }
+        destruct (filter (fun k => negb (key_eqb (p, m) k)) dic) as [|d0 dr] eqn:Hf.
+        * right. left. exists dic. auto.
+        * right. right. exists dic, d0, dr. auto.
+      + left. split; [reflexivity|]. intros (ps & Hp' & Hin). cbn [fst snd] in Hp'. rewrite Hp in Hp'. injection Hp' as <-.
+        assert (has_key (p, m) dic = true) as Hk' by (unfold has_key; apply existsb_exists; exists (p, m); split; [exact Hin|apply key_eqb_true; reflexivity]).
+        congruence.
+    - left. split; [reflexivity|]. intros (ps & Hp' & _). cbn [fst snd] in Hp'. congruence.
+  Qed.
+
+  Lemma ul_val x : val st' x = val st x.
+  Proof.
+    destruct unsync1_cases as [[-> _]|[(dic & _ & _ & _ & ->)|(dic & d0 & dr & _ & _ & _ & ->)]];
+      [reflexivity|unfold val; apply get_val_upd_keep; reflexivity|unfold val; apply get_val_upd_keep; reflexivity].
+  Qed.
+  Lemma ul_frame_small :
+    length (objs st') = length (objs st) /\
+    (forall a, length (o_vals (get_obj st' a)) = length (o_vals (get_obj st a)) /\
+               o_locked (get_obj st' a) = o_locked (get_obj st a)) /\ overflow st' = overflow st.
+  Proof.
+    destruct unsync1_cases as [[-> _]|[(dic & _ & _ & _ & ->)|(dic & d0 & dr & _ & _ & _ & ->)]];
+      [repeat split| |]; (split; [apply upd_obj_length|split; [|reflexivity]]); intros a;
+      (destruct (Nat.eq_dec o a) as [<-|Hne]; [rewrite get_obj_upd_same by exact Ho; split; reflexivity|rewrite get_obj_upd_other by exact Hne; split; reflexivity]).
+  Qed.
+  Lemma ul_in_range x : in_range st x <-> in_range st' x.
+  Proof. destruct ul_frame_small as (L & F & _). unfold in_range. rewrite L. destruct (F (fst x)) as [-> _]. reflexivity. Qed.
+  Lemma ul_locked x : locked st' x = locked st x.
+  Proof. destruct ul_frame_small as (_ & F & _). unfold locked, lockedb. destruct (F (fst x)) as [_ ->]. reflexivity. Qed.
+
+  Lemma ul_edge a b : edge st' a b <-> (edge st a b /\ ~ (a = (o, n) /\ b = (p, m))).
+  Proof.
+    destruct unsync1_cases as [[-> Hno]|[(dic & Hp & Hin & Hf & ->)|(dic & d0 & dr & Hp & Hin & Hf & ->)]].
+    - split; [intros He; split; [exact He|intros [-> ->]; contradiction]|intros [He _]; exact He].
+    - (* the whole entry disappears: every partner was (p, m) *)
+      assert (forall b0, In b0 dic -> b0 = (p, m)) as Hall.
+      { intros b0 Hb. destruct (key_eqb (p, m) b0) eqn:E; [apply key_eqb_true in E; auto|].
+        assert (In b0 (filter (fun k => negb (key_eqb (p, m) k)) dic)) as Hc by (apply filter_In; split; [exact Hb|rewrite E; reflexivity]).
+        rewrite Hf in Hc. contradiction. }
+      destruct (node_eq_dec a (o, n)) as [->|Ha].
+      + split.
+        * intros (ps & Hp' & _). cbn [fst snd] in Hp'. unfold partners in Hp'. rewrite get_obj_upd_same in Hp' by exact Ho.
+          cbn [o_info] in Hp'. rewrite assoc_del_same in Hp' by apply K. discriminate.
+        * intros [(ps & Hp' & Hb) Hne]. cbn [fst snd] in Hp'. rewrite Hp in Hp'. injection Hp' as <-.
+          exfalso. apply Hne. split; [reflexivity|apply Hall; exact Hb].
+      + assert (partners (upd_obj st o (fun ob => mkO (o_alive ob) (o_vals ob) (assoc_del n (o_info ob)) (o_locked ob)
+                  (del1 n (o_att_s ob)) (if is_list_name n && is_list_name m then del1 n (o_att_i ob) else o_att_i ob))) (fst a) (snd a)
+                = partners st (fst a) (snd a)) as Hsame.
+        { unfold partners. destruct a as [a1 a2]. cbn [fst snd]. destruct (Nat.eq_dec o a1) as [<-|Hoa].
+          - rewrite get_obj_upd_same by exact Ho. cbn [o_info]. apply assoc_del_other. intros ->. apply Ha. reflexivity.
+          - rewrite get_obj_upd_other by exact Hoa. reflexivity. }
+        unfold edge. rewrite Hsame. split; [intros He; split; [exact He|intros [E _]; contradiction]|intros [He _]; exact He].
+    - destruct (node_eq_dec a (o, n)) as [->|Ha].
+      + assert (partners (upd_obj st o (fun ob => mkO (o_alive ob) (o_vals ob) (assoc_set n (d0 :: dr) (o_info ob)) (o_locked ob)
+                  (o_att_s ob) (o_att_i ob))) o n = Some (d0 :: dr)) as Hnew.
+        { unfold partners. rewrite get_obj_upd_same by exact Ho. cbn [o_info]. apply assoc_set_same. }
+        unfold edge. cbn [fst snd]. rewrite Hnew, Hp. rewrite <- Hf. split.
+        * intros (ps & [= <-] & Hb). apply filter_In in Hb. destruct Hb as [Hb Hk].
+          split; [exists dic; auto|]. intros [_ ->]. rewrite (proj2 (key_eqb_true _ _) eq_refl) in Hk. discriminate.
+        * intros [(ps & [= <-] & Hb) Hne]. eexists. split; [reflexivity|]. apply filter_In. split; [exact Hb|].
+          destruct (key_eqb (p, m) b) eqn:E; [|reflexivity]. apply key_eqb_true in E. subst b. exfalso. apply Hne. auto.
+      + assert (partners (upd_obj st o (fun ob => mkO (o_alive ob) (o_vals ob) (assoc_set n (d0 :: dr) (o_info ob)) (o_locked ob)
+                  (o_att_s ob) (o_att_i ob))) (fst a) (snd a) = partners st (fst a) (snd a)) as Hsame.
+        { unfold partners. destruct a as [a1 a2]. cbn [fst snd]. destruct (Nat.eq_dec o a1) as [<-|Hoa].
+          - rewrite get_obj_upd_same by exact Ho. cbn [o_info]. apply assoc_set_other. intros ->. apply Ha. reflexivity.
+          - rewrite get_obj_upd_other by exact Hoa. reflexivity. }
+        unfold edge. rewrite Hsame. split; [intros He; split; [exact He|intros [E _]; contradiction]|intros [He _]; exact He].
+  Qed.
+
+  Lemma ul_keys : keys_nodup st'.
+  Proof.
+    intros q. destruct unsync1_cases as [[-> _]|[(dic & _ & _ & _ & ->)|(dic & d0 & dr & _ & _ & _ & ->)]]; [apply K| |];
+      (destruct (Nat.eq_dec o q) as [<-|Hne]; [rewrite get_obj_upd_same by exact Ho; cbn [o_info]|rewrite get_obj_upd_other by exact Hne; apply K]).
+    - apply assoc_del_keys. apply K.
+    - apply assoc_set_keys. apply K.
+  Qed.
+
+  Lemma ul_attached : gwf st -> forall x ps, partners st' (fst x) (snd x) = Some ps ->
+    has (snd x) (o_att_s (get_obj st' (fst x))) = true.
+  Proof.
+    intros [G1 _] x ps Hps.
+    destruct unsync1_cases as [[E _]|[(dic & Hp & Hin & Hf & E)|(dic & d0 & dr & Hp & Hin & Hf & E)]].
+    - rewrite E in *. apply (G1 x ps). exact Hps.
+    - rewrite E in *. destruct x as [a b]. cbn [fst snd] in *. unfold partners in Hps.
+      destruct (Nat.eq_dec o a) as [<-|Hoa].
+      + rewrite get_obj_upd_same in * by exact Ho. cbn [o_info o_att_s] in *.
+        destruct (Nat.eq_dec b n) as [->|Hbn]; [rewrite assoc_del_same in Hps by apply K; discriminate|].
+        rewrite assoc_del_other in Hps by exact Hbn. rewrite has_del1_other by exact Hbn. apply (G1 (o, b) ps). exact Hps.
+      + rewrite get_obj_upd_other in * by exact Hoa. apply (G1 (a, b) ps). exact Hps.
+    - rewrite E in *. destruct x as [a b]. cbn [fst snd] in *. unfold partners in Hps.
+      destruct (Nat.eq_dec o a) as [<-|Hoa].
+      + rewrite get_obj_upd_same in * by exact Ho. cbn [o_info o_att_s] in *.
+        destruct (Nat.eq_dec b n) as [->|Hbn]; [apply (G1 (o, n) dic); exact Hp|].
+        rewrite assoc_set_other in Hps by exact Hbn. apply (G1 (o, b) ps). exact Hps.
+      + rewrite get_obj_upd_other in * by exact Hoa. apply (G1 (a, b) ps). exact Hps.
+  Qed.
+
+  Lemma ul_A : (A st' <= A st)%nat.
+  Proof.
+    destruct unsync1_cases as [[-> _]|[(dic & _ & _ & _ & ->)|(dic & d0 & dr & _ & _ & _ & ->)]]; [lia| |].
+    - unfold A, upd_obj. cbn [objs]. eapply Nat.le_trans; [apply (list_sum_update_le att_count _ 0)|lia].
+      intros ob. unfold att_count. cbn [o_att_s o_att_i]. rewrite !app_length.
+      pose proof (length_del1 n (o_att_s ob)). pose proof (length_del1 n (o_att_i ob)).
+      destruct (is_list_name n && is_list_name m); unfold name in *; lia.
+    - unfold A, upd_obj. cbn [objs]. eapply Nat.le_trans; [apply (list_sum_update_le att_count _ 0)|lia].
+      intros ob. unfold att_count. cbn [o_att_s o_att_i]. lia.
+  Qed.
+End Unlink.
+
+(* one direction of removal keeps gwf (links are only taken away) *)
+Lemma gwf_unlink st o n p m :
+  (o < length (objs st))%nat -> keys_nodup st -> gwf st -> gwf (unsync1 st o n p m).
+Proof.
+  intros Ho K G. split.
+  - apply (ul_attached st o n p m Ho K G).
+  - intros x y He. apply (ul_edge st o n p m Ho K) in He. destruct He as [He _].
+    destruct (g_edge _ G x y He) as (A1 & A2 & A3 & A4).
+    repeat split; try assumption; apply (ul_in_range st o n p m Ho); assumption.
+Qed.
+
+Theorem unsync_step_inv fuel st o n p m :
+  ginv st -> keys_nodup st -> in_range st (o, n) -> in_range st (p, m) ->
+  let st' := fst (step fuel st (Unsync o n p m true)) in
+  ginv st' /\ keys_nodup st' /\ (A st' <= A st)%nat /\ (forall x, in_range st x <-> in_range st' x).
+Proof.
+  intros Hinv K Rx Ry st'.
+  set (st0 := clear_notes st).
+  pose proof (ginv_clear_notes st Hinv) as [G Sy C NL Hov Ty]. fold st0 in G, Sy, C, NL, Hov, Ty.
+  assert (keys_nodup st0) as K0 by exact K.
+  assert (o < length (objs st0))%nat as Ho by apply Rx.
+  set (st1 := unsync1 st0 o n p m).
+  assert (p < length (objs st1))%nat as Hp1.
+  { destruct (ul_frame_small st0 o n p m Ho) as (L & _). fold st1 in L. rewrite L. apply Ry. }
+  assert (keys_nodup st1) as K1 by (apply ul_keys; assumption).
+  set (st2 := unsync1 st1 p m o n).
+  assert (st' = st2) as -> by reflexivity.
+  assert (forall a b, edge st2 a b <->
+            (edge st0 a b /\ ~ (a = (o, n) /\ b = (p, m)) /\ ~ (a = (p, m) /\ b = (o, n)))) as E2.
+  { intros a b. unfold st2. rewrite (ul_edge st1 p m o n Hp1 K1). unfold st1. rewrite (ul_edge st0 o n p m Ho K0). tauto. }
+  assert (forall x, val st2 x = val st0 x) as V2.
+  { intros x. unfold st2. rewrite (ul_val st1 p m o n). unfold st1. apply (ul_val st0 o n p m). }
+  assert (forall x, in_range st0 x <-> in_range st2 x) as R2.
+  { intros x. rewrite (ul_in_range st0 o n p m Ho x). fold st1. apply (ul_in_range st1 p m o n Hp1). }
+  split; [|split; [apply ul_keys; assumption|split; [|exact R2]]].
+  - split.
+    + apply gwf_unlink; [exact Hp1|exact K1|]. apply gwf_unlink; assumption.
+    + intros a b He. apply E2 in He. destruct He as (He & N1 & N2). apply E2.
+      split; [apply Sy; exact He|]. split; [intros [-> ->]; apply N2; auto|intros [-> ->]; apply N1; auto].
+    + intros a b He. rewrite !V2. apply E2 in He. apply C. apply He.
+    + intros x. unfold st2. rewrite (ul_locked st1 p m o n Hp1). unfold st1. rewrite (ul_locked st0 o n p m Ho). apply NL.
+    + destruct (ul_frame_small st1 p m o n Hp1) as (_ & _ & O2). fold st2 in O2. rewrite O2.
+      destruct (ul_frame_small st0 o n p m Ho) as (_ & _ & O1). fold st1 in O1. rewrite O1. exact Hov.
+    + intros x Rx2. rewrite V2. apply Ty. apply R2. exact Rx2.
+  - pose proof (ul_A st1 p m o n Hp1). pose proof (ul_A st0 o n p m Ho). fold st1 in H0. fold st2 in H.
+    assert (A st0 = A st) by reflexivity. lia.
+Qed.
+
+(* what the removal does to the graph and to the values: exactly the two directions of that link go *)
+Lemma unsync_step_edges fuel st o n p m :
+  keys_nodup st -> in_range st (o, n) -> in_range st (p, m) ->
+  let st' := fst (step fuel st (Unsync o n p m true)) in
+  (forall a b, edge st' a b <->
+     (edge st a b /\ ~ (a = (o, n) /\ b = (p, m)) /\ ~ (a = (p, m) /\ b = (o, n)))) /\
+  (forall x, val st' x = val st x).
+Proof.
+  intros K Rx Ry st'.
+  set (st0 := clear_notes st).
+  assert (keys_nodup st0) as K0 by exact K.
+  assert (o < length (objs st0))%nat as Ho by apply Rx.
+  set (st1 := unsync1 st0 o n p m).
+  assert (p < length (objs st1))%nat as Hp1.
+  { destruct (ul_frame_small st0 o n p m Ho) as (L & _). fold st1 in L. rewrite L. apply Ry. }
+  assert (keys_nodup st1) as K1 by (apply ul_keys; assumption).
+  set (st2 := unsync1 st1 p m o n).
+  assert (st' = st2) as -> by reflexivity.
+  split.
+  - intros a b. unfold st2. rewrite (ul_edge st1 p m o n Hp1 K1). unfold st1. rewrite (ul_edge st0 o n p m Ho K0).
+    change (edge st0 a b) with (edge st a b). tauto.
+  - intros x. unfold st2. rewrite (ul_val st1 p m o n). unfold st1. rewrite (ul_val st0 o n p m). reflexivity.
+Qed.
+
+(* STOP WHEN UNSYNCHRONISED, on every graph: after remove=True a later assignment to one end changes
+   only what is still reachable from it in the graph without that link (both directions gone); in
+   particular the former partner keeps its value unless another path still joins the two. *)
+Theorem removed_link_inert_on_graphs fuel st o n p m v :
+  ginv st -> keys_nodup st -> in_range st (o, n) -> in_range st (p, m) ->
+  kind_ok n v = true -> (A st < fuel)%nat ->
+  let st1 := fst (step fuel st (Unsync o n p m true)) in
+  let st2 := fst (step fuel st1 (Assign o n v)) in
+  (forall a b, edge st1 a b <->
+     (edge st a b /\ ~ (a = (o, n) /\ b = (p, m)) /\ ~ (a = (p, m) /\ b = (o, n)))) /\
+  ginv st2 /\
+  (forall y, reach st1 (o, n) y -> val st2 y = v) /\
+  (forall y, ~ reach st1 (o, n) y -> val st2 y = val st y).
+Proof.
+  intros Hinv K Rx Ry Hk Hfuel st1 st2.
+  destruct (unsync_step_inv fuel st o n p m Hinv K Rx Ry) as (I1 & K1 & A1 & R1). fold st1 in I1, K1, A1, R1.
+  destruct (unsync_step_edges fuel st o n p m K Rx Ry) as (E1 & V1). fold st1 in E1, V1.
+  assert (in_range st1 (o, n)) as Rx1 by (apply R1; exact Rx).
+  destruct (assign_step_inv fuel st1 o n v I1 Rx1 Hk ltac:(lia)) as (I2 & _). fold st2 in I2.
+  split; [exact E1|]. split; [exact I2|].
+  set (s0 := clear_notes st1).
+  pose proof (ginv_clear_notes st1 I1) as [G Sy C NL Hov Ty]. fold s0 in G, Sy, C, NL, Hov, Ty.
+  assert (Phi s0 < fuel)%nat as P0 by (pose proof (Phi_le_A s0); assert (A s0 = A st1) by reflexivity; lia).
+  assert (st2 = fst (assign fuel s0 o n v)) as Hstep.
+  { unfold st2, step. fold s0. destruct (assign fuel s0 o n v). reflexivity. }
+  pose proof (gwf_wf s0 v G) as W.
+  assert (in_range s0 (o, n)) as Rx0 by exact Rx1.
+  destruct (assign_converges v fuel s0 o n W C NL Hov P0 Hk Rx0) as (_ & _ & Hall & _).
+  split.
+  - intros y R. rewrite Hstep. apply Hall. eapply reach_frame; [apply clear_notes_frame|exact R].
+  - intros y NR. rewrite <- V1. rewrite Hstep.
+    destruct (val_dec (val (fst (assign fuel s0 o n v)) y) (val s0 y)) as [E|E]; [exact E|].
+    exfalso. apply NR. eapply reach_frame; [apply same_frame_sym; apply (clear_notes_frame st1)|].
+    eapply assign_touches_only_reachable; [exact Hov|apply (NL (o, n))|exact P0|exact E].
+Qed.
+
+(* key uniqueness through the other two kinds of step *)
+Lemma sync_step_keys fuel st o n p m : keys_nodup st -> keys_nodup (fst (step fuel st (Sync o n p m true))).
+Proof.
+  intros K. unfold step. set (st0 := clear_notes st). assert (keys_nodup st0) as K0 by exact K.
+  pose proof (sync1_keys fuel st0 o n p m K0) as K1.
+  destruct (sync1 fuel st0 o n p m) as [s1 ok]. cbn [fst] in K1. destruct ok; cbn [negb]; [|exact K1].
+  pose proof (sync1_keys fuel s1 p m o n K1) as K2. destruct (sync1 fuel s1 p m o n) as [s2 ok2]. exact K2.
+Qed.
+Lemma assign_step_keys fuel st o n v : keys_nodup st -> keys_nodup (fst (step fuel st (Assign o n v))).
+Proof.
+  intros K q. unfold step. set (st0 := clear_notes st).
+  pose proof (assign_info v fuel st0 o n q) as H. destruct (assign fuel st0 o n v) as [s1 ok]. cbn [fst] in *.
+  rewrite H. apply K.
+Qed.
+
+(* ---------- histories of link creation, link removal and assignments ---------- *)
+Fixpoint gops_ok2 (st : state) (ops : list op) : Prop :=
+  match ops with
+  | [] => True
+  | Assign o n v :: r => in_range st (o, n) /\ kind_ok n v = true /\ gops_ok2 st r
+  | Sync o n p m true :: r => link_ok st (o, n) (p, m) /\ gops_ok2 st r
+  | Unsync o n p m true :: r => in_range st (o, n) /\ in_range st (p, m) /\ gops_ok2 st r
+  | _ :: _ => False
+  end.
+
+Lemma gops_ok2_range s t ops : (forall z, in_range s z <-> in_range t z) -> gops_ok2 s ops -> gops_ok2 t ops.
+Proof.
+  intros H. induction ops as [|[o n v| |o n p m [|]|o n p m [|]|] r IH]; cbn; auto.
+  - intros (A1 & A2 & A3). split; [apply H; exact A1|]. split; [exact A2|apply IH; exact A3].
+  - intros (A1 & A2). split; [eapply link_ok_range; eassumption|apply IH; exact A2].
+  - intros (A1 & A2 & A3). split; [apply H; exact A1|]. split; [apply H; exact A2|apply IH; exact A3].
+Qed.
+
+Theorem link_unlink_assign_histories fuel : forall ops st,
+  ginv st -> keys_nodup st -> (A st + 4 * length ops < fuel)%nat -> gops_ok2 st ops ->
+  ginv (final fuel st ops).
+Proof.
+  induction ops as [|[o n v| |o n p m [|]|o n p m [|]|] r IH]; intros st Hinv K Hfuel Hops; cbn [final]; try contradiction.
+  - exact Hinv.
+  - destruct Hops as (Rx & Hk & Hr). cbn [length] in Hfuel.
+    destruct (assign_step_inv fuel st o n v Hinv Rx Hk ltac:(lia)) as (I1 & A1 & R1).
+    apply IH; [exact I1|apply assign_step_keys; exact K|rewrite A1; lia|eapply gops_ok2_range; eassumption].
+  - destruct Hops as (Hok & Hr). cbn [length] in Hfuel.
+    destruct (sync_step_inv fuel st o n p m Hinv Hok ltac:(lia)) as (I1 & A1 & R1).
+    apply IH; [exact I1|apply sync_step_keys; exact K|lia|eapply gops_ok2_range; eassumption].
+  - destruct Hops as (Rx & Ry & Hr). cbn [length] in Hfuel.
+    destruct (unsync_step_inv fuel st o n p m Hinv K Rx Ry) as (I1 & K1 & A1 & R1).
+    apply IH; [exact I1|exact K1|lia|eapply gops_ok2_range; eassumption].
+Qed.
+
+Lemma keys_fresh vs : keys_nodup (init_state vs).
+Proof.
+  intros o. destruct (Nat.lt_ge_cases o (length vs)) as [Ho|Ho].
+  - rewrite get_obj_fresh by exact Ho. constructor.
+  - unfold get_obj. rewrite nth_overflow; [constructor|]. unfold init_state. cbn [objs]. rewrite map_length. exact Ho.
+Qed.
+
+Theorem fresh_link_unlink_assign_histories fuel vs ops :
+  typed_pool vs -> (4 * length ops < fuel)%nat -> gops_ok2 (init_state vs) ops ->
+  let st' := final fuel (init_state vs) ops in
+  consistent st' /\ symmetric st' /\ no_locks st' /\ overflow st' = false.
+Proof.
+  intros Ht Hfuel Hops st'. destruct (ginv_fresh vs Ht) as [I0 A0].
+  destruct (link_unlink_assign_histories fuel ops (init_state vs) I0 (keys_fresh vs) ltac:(lia) Hops) as [_ Sy C NL Hov _].
+  repeat split; assumption.
+Qed.
+
+Fixpoint gops_ok2b (st : state) (ops : list op) : bool :=
+  match ops with
+  | [] => true
+  | Assign o n v :: r => in_rangeb st (o, n) && kind_ok n v && gops_ok2b st r
+  | Sync o n p m true :: r => link_okb st (o, n) (p, m) && gops_ok2b st r
+  | Unsync o n p m true :: r => in_rangeb st (o, n) && in_rangeb st (p, m) && gops_ok2b st r
+  | _ :: _ => false
+  end.
+Lemma gops_ok2b_sound st ops : gops_ok2b st ops = true -> gops_ok2 st ops.
+Proof.
+  induction ops as [|[o n v| |o n p m [|]|o n p m [|]|] r IH]; cbn; try discriminate; auto.
+  - intros H. apply andb_prop in H. destruct H as [H H3]. apply andb_prop in H. destruct H as [H1 H2].
+    split; [apply in_rangeb_sound; exact H1|]. split; [exact H2|apply IH; exact H3].
+  - intros H. apply andb_prop in H. destruct H as [H1 H2]. split; [apply link_okb_sound; exact H1|apply IH; exact H2].
+  - intros H. apply andb_prop in H. destruct H as [H H3]. apply andb_prop in H. destruct H as [H1 H2].
+    split; [apply in_rangeb_sound; exact H1|]. split; [apply in_rangeb_sound; exact H2|apply IH; exact H3].
+Qed.
+
+(* ---------- a partner object dies (weak references fire) inside a general graph ---------- *)
+Definition cl (d : oid) (ob : ostate) : ostate :=
+  mkO (o_alive ob) (o_vals ob) (drop_dead d (o_info ob)) (o_locked ob) (o_att_s ob) (o_att_i ob).
+Definition live (d : oid) (ps : list (oid * name)) : list (oid * name) :=
+  filter (fun q : oid * name => negb (Nat.eqb (fst q) d)) ps.
+
+Lemma nth_update_dead : forall l d j,
+  nth j (update d (fun _ => dead_obj) l) dead_obj = if Nat.eqb j d then dead_obj else nth j l dead_obj.
+Proof.
+  induction l as [|a l IH]; intros [|d] [|j]; cbn; auto.
+  destruct (Nat.eqb j d); reflexivity.
+Qed.
+
+Lemma get_obj_collect st d o :
+  get_obj (collect st d) o = if Nat.eqb o d then dead_obj else cl d (get_obj st o).
+Proof.
+  unfold get_obj, collect. cbn [objs].
+  change (nth o (map (cl d) (update d (fun _ => dead_obj) (objs st))) (cl d dead_obj) =
+          if Nat.eqb o d then dead_obj else cl d (nth o (objs st) dead_obj)).
+  rewrite map_nth, nth_update_dead. destruct (Nat.eqb o d); reflexivity.
+Qed.
+
+Lemma drop_dead_cons d k ps r :
+  drop_dead d ((k, ps) :: r) =
+  match live d ps with
+  | [] => drop_dead d r
+  | _ :: _ => (k, live d ps) :: drop_dead d r
+  end.
+Proof.
+  unfold drop_dead. cbn [map filter fst snd].
+  change (filter (fun k0 : nat * name => negb (Nat.eqb (fst k0) d)) ps) with (live d ps).
+  destruct (live d ps); reflexivity.
+Qed.
+
+Lemma assoc_notin {B} k : forall (l : list (nat * B)), ~ In k (map fst l) -> assoc k l = None.
+Proof.
+  induction l as [|[k' a] l IH]; cbn; auto. intros H. destruct (Nat.eqb_spec k k') as [->|N].
+  - exfalso. apply H. left. reflexivity.
+  - apply IH. intros Hin. apply H. right. exact Hin.
+Qed.
+
+Lemma assoc_drop_dead d n : forall info, NoDup (map fst info) ->
+  assoc n (drop_dead d info) =
+  match assoc n info with
+  | Some ps => match live d ps with [] => None | _ :: _ => Some (live d ps) end
+  | None => None
+  end.
+Proof.
+  induction info as [|[k ps] r IH]; intros H; [reflexivity|].
+  cbn [map fst] in H. inversion H as [|? ? Hk Hr]; subst. rewrite drop_dead_cons. cbn [assoc].
+  destruct (Nat.eqb_spec n k) as [->|N].
+  - destruct (live d ps) eqn:E.
+    + rewrite (IH Hr). rewrite (assoc_notin k r Hk). reflexivity.
+    + cbn [assoc]. rewrite Nat.eqb_refl. reflexivity.
+  - destruct (live d ps) eqn:E.
+    + apply IH. exact Hr.
+    + cbn [assoc]. apply Nat.eqb_neq in N. rewrite N. apply IH. exact Hr.
+Qed.
+
+Lemma nodup_filter_keys {B} (g : nat * B -> bool) : forall l, NoDup (map fst l) -> NoDup (map fst (filter g l)).
+Proof.
+  induction l as [|a l IH]; cbn; intros H; [constructor|]. inversion H as [|? ? H2 H3]; subst.
+  destruct (g a); cbn; [constructor; [|auto]|auto].
+  intros Hin. apply H2. apply in_map_iff in Hin. destruct Hin as (x & E & Hx). apply filter_In in Hx.
+  apply in_map_iff. exists x. tauto.
+Qed.
+
+Lemma drop_dead_keys d info : NoDup (map fst info) -> NoDup (map fst (drop_dead d info)).
+Proof.
+  intros H. unfold drop_dead. apply nodup_filter_keys. rewrite map_map. cbn [fst]. exact H.
+Qed.
+
+Lemma A_dead : forall l d,
+  (list_sum (map att_count (update d (fun _ => dead_obj) l)) <= list_sum (map att_count l))%nat.
+Proof.
+  induction l as [|a l IH]; intros [|d]; cbn [update map]; try lia.
+  - change (att_count dead_obj + list_sum (map att_count l) <= att_count a + list_sum (map att_count l))%nat.
+    change (att_count dead_obj) with 0%nat. lia.
+  - change (att_count a + list_sum (map att_count (update d (fun _ => dead_obj) l)) <= att_count a + list_sum (map att_count l))%nat.
+    specialize (IH d). lia.
+Qed.
+
+Section Collect.
+  Variables (st : state) (d : oid).
+  Hypothesis K : keys_nodup st.
+  Let st' := collect st d.
+
+  Lemma cl_partners o n :
+    partners st' o n =
+    if Nat.eqb o d then None
+    else match partners st o n with
+         | Some ps => match live d ps with [] => None | _ :: _ => Some (live d ps) end
+         | None => None
+         end.
+  Proof.
+    unfold partners, st'. rewrite get_obj_collect. destruct (Nat.eqb o d); [reflexivity|].
+    cbn [cl o_info]. apply assoc_drop_dead. apply K.
+  Qed.
+
+  Lemma cl_edge a b : edge st' a b <-> (edge st a b /\ fst a <> d /\ fst b <> d).
+  Proof.
+    unfold edge. split.
+    - intros (ps & Hp & Hin). rewrite cl_partners in Hp. destruct (Nat.eqb_spec (fst a) d) as [E|N]; [discriminate|].
+      destruct (partners st (fst a) (snd a)) as [ps0|]; [|discriminate].
+      assert (ps = live d ps0) as -> by (destruct (live d ps0); [discriminate|congruence]).
+      apply filter_In in Hin. destruct Hin as [Hin Hb]. split; [exists ps0; auto|]. split; [exact N|].
+      intros E. rewrite E, Nat.eqb_refl in Hb. discriminate.
+    - intros ((ps & Hp & Hin) & Na & Nb). exists (live d ps). rewrite cl_partners.
+      apply Nat.eqb_neq in Na. rewrite Na, Hp.
+      assert (In b (live d ps)) as Hl.
+      { apply filter_In. split; [exact Hin|]. apply Nat.eqb_neq in Nb. rewrite Nb. reflexivity. }
+      split; [|exact Hl]. destruct (live d ps); [destruct Hl|reflexivity].
+  Qed.
+
+  Lemma cl_val x : fst x <> d -> val st' x = val st x.
+  Proof.
+    intros N. unfold val, get_val, st'. rewrite get_obj_collect. apply Nat.eqb_neq in N. rewrite N. reflexivity.
+  Qed.
+
+  Lemma cl_length : length (objs st') = length (objs st).
+  Proof. unfold st', collect. cbn [objs]. rewrite map_length. apply update_length. Qed.
+
+  Lemma cl_in_range x : in_range st' x <-> (in_range st x /\ fst x <> d).
+  Proof.
+    unfold in_range. rewrite cl_length. unfold st'. rewrite get_obj_collect.
+    destruct (Nat.eqb_spec (fst x) d) as [E|N]; cbn [cl o_vals dead_obj length].
+    - split; [intros [_ H]; lia|intros [_ H]; contradiction].
+    - tauto.
+  Qed.
+
+  Lemma cl_locked x : locked st' x = if Nat.eqb (fst x) d then false else locked st x.
+  Proof.
+    unfold locked, lockedb, st'. rewrite get_obj_collect. destruct (Nat.eqb (fst x) d); reflexivity.
+  Qed.
+
+  Lemma cl_A : (A st' <= A st)%nat.
+  Proof.
+    unfold A, st', collect. cbn [objs]. rewrite map_map.
+    rewrite (map_ext (fun ob => att_count (cl d ob)) att_count) by reflexivity.
+    apply A_dead.
+  Qed.
+
+  Lemma cl_keys : keys_nodup st'.
+  Proof.
+    intros o. unfold st'. rewrite get_obj_collect. destruct (Nat.eqb o d); [constructor|].
+    cbn [cl o_info]. apply drop_dead_keys. apply K.
+  Qed.
+
+  Lemma cl_ginv : ginv st -> ginv st'.
+  Proof.
+    intros [G Sy C NL Hov Ty]. split.
+    - split.
+      + intros x ps Hp. rewrite cl_partners in Hp. unfold st'. rewrite get_obj_collect.
+        destruct (Nat.eqb (fst x) d); [discriminate|].
+        destruct (partners st (fst x) (snd x)) as [ps0|] eqn:E; [|discriminate].
+        cbn [cl o_att_s]. exact (g_attached _ G x ps0 E).
+      + intros x y He. apply cl_edge in He. destruct He as (He & Nx & Ny).
+        destruct (g_edge _ G x y He) as (A1 & A2 & A3 & A4).
+        repeat split; try assumption; apply cl_in_range; split; assumption.
+    - intros a b He. apply cl_edge in He. destruct He as (He & Na & Nb). apply cl_edge. split; [apply Sy; exact He|tauto].
+    - intros a b He. apply cl_edge in He. destruct He as (He & Na & Nb). rewrite !cl_val by assumption. apply C. exact He.
+    - intros x. rewrite cl_locked. destruct (Nat.eqb (fst x) d); [reflexivity|apply NL].
+    - exact Hov.
+    - intros x Rx. apply cl_in_range in Rx. destruct Rx as [Rx N]. rewrite cl_val by exact N. apply Ty. exact Rx.
+  Qed.
+End Collect.
+
+Theorem collect_step_inv fuel st d :
+  ginv st -> keys_nodup st ->
+  let st' := fst (step fuel st (Collect d)) in
+  ginv st' /\ keys_nodup st' /\ (A st' <= A st)%nat /\
+  (forall a b, edge st' a b <-> (edge st a b /\ fst a <> d /\ fst b <> d)) /\
+  (forall x, in_range st' x <-> (in_range st x /\ fst x <> d)) /\
+  (forall x, fst x <> d -> val st' x = val st x).
+Proof.
+  intros Hinv K st'. set (st0 := clear_notes st).
+  assert (keys_nodup st0) as K0 by exact K.
+  assert (st' = collect st0 d) as -> by reflexivity.
+  split; [apply cl_ginv; [exact K0|apply ginv_clear_notes; exact Hinv]|].
+  split; [apply cl_keys; exact K0|]. split; [exact (cl_A st0 d)|].
+  split; [exact (cl_edge st0 d K0)|]. split; [exact (cl_in_range st0 d)|exact (cl_val st0 d)].
+Qed.
+
+(* ---------- histories of link creation, link removal, assignments and partner deaths ----------
+   Validity is asked of every operation AT THE TIME IT RUNS (an object that has died is out of range, so
+   nothing may name it afterwards). *)
+Definition op_ok (st : state) (o : op) : Prop :=
+  match o with
+  | Assign o n v => in_range st (o, n) /\ kind_ok n v = true
+  | Sync o n p m true => link_ok st (o, n) (p, m)
+  | Unsync o n p m true => in_range st (o, n) /\ in_range st (p, m)
+  | Collect d => True
+  | _ => False
+  end.
+Fixpoint run_ok (fuel : nat) (st : state) (ops : list op) : Prop :=
+  match ops with
+  | [] => True
+  | o :: r => op_ok st o /\ run_ok fuel (fst (step fuel st o)) r
+  end.
+
+Theorem graph_step_inv fuel st o :
+  ginv st -> keys_nodup st -> (A st + 4 < fuel)%nat -> op_ok st o ->
+  let st' := fst (step fuel st o) in
+  ginv st' /\ keys_nodup st' /\ (A st' <= A st + 4)%nat.
+Proof.
+  intros Hinv K Hfuel Hok. destruct o as [o n v| |o n p m [|]|o n p m [|]|d]; cbn [op_ok] in Hok; try contradiction.
+  - destruct Hok as (Rx & Hk). destruct (assign_step_inv fuel st o n v Hinv Rx Hk ltac:(lia)) as (I1 & A1 & _).
+    split; [exact I1|]. split; [apply assign_step_keys; exact K|]. cbv zeta. rewrite A1. lia.
+  - destruct (sync_step_inv fuel st o n p m Hinv Hok Hfuel) as (I1 & A1 & _).
+    split; [exact I1|]. split; [apply sync_step_keys; exact K|exact A1].
+  - destruct Hok as (Rx & Ry). destruct (unsync_step_inv fuel st o n p m Hinv K Rx Ry) as (I1 & K1 & A1 & _).
+    split; [exact I1|]. split; [exact K1|]. cbv zeta. lia.
+  - destruct (collect_step_inv fuel st d Hinv K) as (I1 & K1 & A1 & _).
+    split; [exact I1|]. split; [exact K1|]. cbv zeta. lia.
+Qed.
+
+Theorem graph_histories fuel : forall ops st,
+  ginv st -> keys_nodup st -> (A st + 4 * length ops < fuel)%nat -> run_ok fuel st ops ->
+  ginv (final fuel st ops).
+Proof.
+  induction ops as [|o r IH]; intros st Hinv K Hfuel Hops; cbn [final]; [exact Hinv|].
+  destruct Hops as (Hok & Hr). cbn [length] in Hfuel.
+  destruct (graph_step_inv fuel st o Hinv K ltac:(lia) Hok) as (I1 & K1 & A1).
+  apply IH; [exact I1|exact K1|lia|exact Hr].
+Qed.
+
+Theorem fresh_graph_histories fuel vs ops :
+  typed_pool vs -> (4 * length ops < fuel)%nat -> run_ok fuel (init_state vs) ops ->
+  let st' := final fuel (init_state vs) ops in
+  consistent st' /\ symmetric st' /\ no_locks st' /\ overflow st' = false.
+Proof.
+  intros Ht Hfuel Hops st'. destruct (ginv_fresh vs Ht) as [I0 A0].
+  destruct (graph_histories fuel ops (init_state vs) I0 (keys_fresh vs) ltac:(lia) Hops) as [_ Sy C NL Hov _].
+  repeat split; assumption.
+Qed.
+
+Definition op_okb (st : state) (o : op) : bool :=
+  match o with
+  | Assign o n v => in_rangeb st (o, n) && kind_ok n v
+  | Sync o n p m true => link_okb st (o, n) (p, m)
+  | Unsync o n p m true => in_rangeb st (o, n) && in_rangeb st (p, m)
+  | Collect d => true
+  | _ => false
+  end.
+Fixpoint run_okb (fuel : nat) (st : state) (ops : list op) : bool :=
+  match ops with
+  | [] => true
+  | o :: r => op_okb st o && run_okb fuel (fst (step fuel st o)) r
+  end.
+Lemma op_okb_sound st o : op_okb st o = true -> op_ok st o.
+Proof.
+  destruct o as [o n v| |o n p m [|]|o n p m [|]|d]; cbn; try discriminate; auto.
+  - intros H. apply andb_prop in H. destruct H as [H1 H2]. split; [apply in_rangeb_sound; exact H1|exact H2].
+  - apply link_okb_sound.
+  - intros H. apply andb_prop in H. destruct H as [H1 H2]. split; apply in_rangeb_sound; assumption.
+Qed.
+Lemma run_okb_sound fuel : forall ops st, run_okb fuel st ops = true -> run_ok fuel st ops.
+Proof.
+  induction ops as [|o r IH]; intros st H; [exact I|]. cbn [run_okb] in H. apply andb_prop in H. destruct H as [H1 H2].
+  split; [apply op_okb_sound; exact H1|apply IH; exact H2].
 Qed.
